@@ -3,6 +3,7 @@ package main
 import (
 	"fmt"
 	"os"
+	"regexp"
 	"strings"
 	gotime "time"
 
@@ -274,4 +275,16 @@ func modelCommand(env *Env, text string, cfg CfgSpec, now []int, c CmdSpec) stri
 	args = append(args, "--")
 	args = append(args, c.ModelTokens()...)
 	return env.Drv.Ask(args...)
+}
+
+var reLongDigits = regexp.MustCompile(`[0-9]{18,}`)
+
+// cpusFor: the number of CPUs klog is told it has (1 = serial parser, more = parallel parser with
+// that many workers), varied with the text; texts with numbers of 18 or more digits (D1/D2: the
+// parser panics, in a goroutine of the parallel parser) stay with the serial parser.
+func cpusFor(text string) int {
+	if reLongDigits.MatchString(text) {
+		return 1
+	}
+	return 1 + len(text)%3
 }
